@@ -61,7 +61,7 @@ def sup_parsed_context_built_only_in_next_impl(P):
                 if b.is_closure:
                     # `.map(|(entry, span)| ..)` on the result of with_span().parse(): the item is the closure's argument
                     ok = bool(rs) and all(r.kind == "param" for r in rs)
-                    par = P.bodies.get(b.parent)
+                    par = (P.closure_parents(b) or [None])[0]
                     used = False
                     if ok and par is not None:
                         for pbb, pt in par.calls():
